@@ -32,6 +32,7 @@ DECIDED = [
     "C02.9 a traversed parent that needs no more running is dropped (progress of the inverse DFS)",
     "C02.11 the postponement of cleanups consults a freshly computed list of unexplored flat nodes (a stale list postpones forever: busy loop)",
     "C02.10 recovery from a hung occupant: the re-entrancy limit strictly grows each time the waiting budget is exhausted",
+    "C02.12 definitions of the aggregated views and predicates the loop conditions rest on; fresh per-node bookkeeping",
 ]
 NOT_DECIDED = [
     "termination / absence of livelock between bouncing workers as such",
@@ -219,6 +220,12 @@ def run(ctx: Ctx) -> None:
     from .c04 import reentrancy_rule
 
     ctx.call(reentrancy_rule, "10")
+    from . import atoms as A
+
+    ctx.call(A.definitions, "12")
+    ctx.call(A.involved_workers, "12i")
+    ctx.call(A.drop_registrations, "12d")
+    ctx.call(A.fresh_state, "12f")
     # the drop must exist: otherwise the child picks the same finished parent forever
     sites = [c for c in calls_in(ctx.repo.func(T.TOT).node) if call_name(c) == "drop_parent"]
     ctx.record("9", "COUNT", T.TOT, "a traversed parent that needs no more running is dropped for the child", len(sites) >= 1, {},
@@ -229,6 +236,22 @@ G = "cartgraph/graph.py"
 NODE = "cartgraph/node.py"
 R = "plugins/runner.py"
 MUTANTS = [
+    ("shared-results-own-only", NODE, "        results = list(self.results)\n        for bridged_node in self.bridged_nodes:\n            results += bridged_node.results\n        return results",
+     "        results = list(self.results)\n        return results", "12v"),
+    ("finished-workers-skip-self", NODE, "        if self.finished_worker is not None:\n            workers.add(self.finished_worker)\n        for bridged_node in self.bridged_nodes:\n            if bridged_node.finished_worker",
+     "        for bridged_node in self.bridged_nodes:\n            if bridged_node.finished_worker", "12v"),
+    ("started-workers-filtered", NODE, "            if bridged_node.started_worker is not None:\n                workers.add(bridged_node.started_worker)",
+     "            if bridged_node.started_worker is not None and not bridged_node.is_flat():\n                workers.add(bridged_node.started_worker)", "12v"),
+    ("involved-only-setup-picks", NODE, "            self._picked_by_setup_nodes.get_workers()\n            | self._picked_by_cleanup_nodes.get_workers()", "            self._picked_by_setup_nodes.get_workers()", "12i"),
+    ("drop-parent-registers-self", NODE, "self._dropped_setup_nodes.register(test_node, worker)", "self._dropped_setup_nodes.register(self, worker)", "12d"),
+    ("drop-child-unguarded", NODE, "        if test_node not in self.cleanup_nodes:\n            raise ValueError(\n                f\"Invalid child to drop: {test_node} not a child of {self}\"\n            )\n", "", "12d"),
+    ("class-level-results", NODE, "        self.objects = []\n        self.results = []\n", "        self.objects = []\n", "12f"),
+    ("flat-means-no-vms", NODE, "        return len(self.objects) == 0", "        return len(self.objects) <= 1", "12p"),
+    ("P-shared-results-comprehension", NODE, "        results = list(self.results)\n        for bridged_node in self.bridged_nodes:\n            results += bridged_node.results\n        return results",
+     "        results = list(self.results)\n        for other in self.bridged_nodes:\n            results.extend(other.results)\n        return results", None),
+    ("P-finished-workers-reordered", NODE, "        if self.finished_worker is not None:\n            workers.add(self.finished_worker)\n        for bridged_node in self.bridged_nodes:\n            if bridged_node.finished_worker is not None:\n                workers.add(bridged_node.finished_worker)\n        return workers",
+     "        for b in self.bridged_nodes:\n            if b.finished_worker is None:\n                continue\n            workers.add(b.finished_worker)\n        if not (self.finished_worker is None):\n            workers.add(self.finished_worker)\n        return workers", None),
+    ("P-flat-not-objects", NODE, "        return len(self.objects) == 0", "        return not self.objects", None),
     ("no-pop-after-traverse", G, "                        previous.drop_parent(next, worker)\n                    traverse_path.pop()",
      "                        previous.drop_parent(next, worker)\n                        traverse_path.pop()", "1"),
     ("pick-filter-loosened", NODE, "            n for n in self.setup_nodes if worker.id in n.params[\"name\"] or n.is_flat()\n        ]",
